@@ -2,7 +2,7 @@
 # usage: tools/try_patch.sh <patch.diff> <Cxx> [<Cxx> ...]
 # Applies a seeded change to /repo, runs the quick checks named, and always restores /repo.
 set -u
-patch="$1"; shift
+patch="$(realpath "$1")"; shift
 cd /repo || exit 2
 if [ -n "$(git status --porcelain --untracked-files=no)" ]; then echo "/repo has uncommitted changes; refusing"; exit 2; fi
 if ! git apply --check "$patch" 2>/dev/null; then
